@@ -57,6 +57,22 @@ CHECKS = {
             "numbers, empty queue, free lock, no deadlock (scheduler detector).",
             "DESIGN.md C12", "Seeded search, not exhaustive enumeration of the two-thread schedule space (that would be model checking); "
             "depth-3 races are reached at roughly 1 in 10^4 schedules, so they need the thorough tier."),
+    "C14": ("exploration",
+            "deterministic simulation: seeded line-level schedules of a caller thread and a BgServingThread against a scripted peer; oracle = return instant == dispatch instant in virtual time",
+            "Seeded search over interleavings (source-line pre-emption in serve/_dispatch/AsyncResult/_bg_server, random walk / bounded / PCT / "
+            "window widening) of one caller and the real background serving thread; in virtual time all computation is instantaneous, so a "
+            "caller that returns later than the instant its reply finished dispatching has slept through it. On the pinned tree this "
+            "reproduces the hand-off defect the property describes; it is reported as KNOWN-FINDING by structural signature, every other "
+            "stall (lost notify, wait that ignores readiness, dispatch under the lock) is a VIOLATION.",
+            "DESIGN.md C14", "Known finding D7 recorded in known_findings.json (signature: wait entered after another thread received the reply)."),
+    "C13": ("exploration",
+            "deterministic simulation: seeded line-level schedules of 2-3 caller threads (+ optional BgServingThread) against a re-ordering scripted peer; oracle = request ledger + dispatch-once + virtual-time liveness",
+            "Seeded search over interleavings (source-line pre-emption in serving, sending, correlation and result publication; random walk / "
+            "bounded / PCT / window widening) of threads sharing one connection, the peer answering in any order and calling back. Safety is "
+            "enforced in full in every run (own reply exactly once, each incoming frame dispatched once, distinct sequence numbers, no "
+            "callback left, no deadlock). Liveness (no sleeping through a wake-up) is judged in virtual time; stalls whose wait began after "
+            "another thread had received the awaited reply are the known finding D7 (shared with C14), all other stalls are violations.",
+            "DESIGN.md C13", "Known finding D7 recorded in known_findings.json."),
 }
 
 NOT_APPLICABLE = {
